@@ -197,7 +197,9 @@ def make_box(records, rows, box, rename=None):
         "y": np.array([r["y"] for r in recs], dtype=np.float64),
         "c": np.array([float(r["c"]) for r in recs], dtype=np.float64),
         "b": np.array([bool(r["b"]) for r in recs], dtype=bool),
-        "s": np.array([r["s"] for r in recs], dtype=str) if recs else np.array([], dtype=str),
+        # a column of strings; with a missing value (None / NaN) in it, a column of objects as pandas would hold it
+        "s": (np.array([r["s"] for r in recs], dtype=object) if any(r["s"] is None or r["s"] != r["s"] for r in recs)
+              else np.array([r["s"] for r in recs], dtype=str)) if recs else np.array([], dtype=str),
         "t": np.array([r["t"] for r in recs], dtype=str) if recs else np.array([], dtype=str),
     }
     if rename:
